@@ -140,7 +140,8 @@ def isOneOf (cs : List UInt8) (c : UInt8) : Bool := cs.contains c
 
 /-- bytes that occur in some text `strconv.ParseFloat` accepts -/
 def floatAlphabet (c : UInt8) : Bool :=
-  isDigit c || isOneOf "+-.eExXpP_abcdfABCDFiInNtTyY".toUTF8.toList c
+  -- + - . e E x X p P _ a b c d f A B C D F i I n N t T y Y
+  isDigit c || isOneOf [43, 45, 46, 101, 69, 120, 88, 112, 80, 95, 97, 98, 99, 100, 102, 65, 66, 67, 68, 70, 105, 73, 110, 78, 116, 84, 121, 89] c
 
 def pow5 (k : Nat) : Nat := 5 ^ k
 
@@ -150,12 +151,16 @@ def oddPart (n : Nat) : Nat :=
 termination_by n
 decreasing_by omega
 
+def splitSign (b : Bytes) : Bool × Bytes :=
+  match b with
+  | 45 :: r => (true, r)
+  | 43 :: r => (false, r)
+  | r => (false, r)
+
 /-- `[+-]? ( D+ ( . D* )? | . D+ )`: sign, integer digits, fraction digits -/
 def plainDecimal (b : Bytes) : Option (Bool × Bytes × Bytes) :=
-  let (neg, r) := match b with
-    | 45 :: r => (true, r)
-    | 43 :: r => (false, r)
-    | r => (false, r)
+  let neg := (splitSign b).1
+  let r := (splitSign b).2
   let ip := r.takeWhile isDigit
   let rest := r.dropWhile isDigit
   match rest with
@@ -178,7 +183,8 @@ def parseFloatDec (b : Bytes) : FParse :=
         if m == 0 then (if neg then .unknown else .val .zero)
         else if oddPart m ≥ 2 ^ 53 then .unknown
         else .val (Dyadic.ofIntWithPrec (if neg then -(m : Int) else m) f)
-  else if !b.any (isOneOf "xXiInN".toUTF8.toList) && b.any (isOneOf "abcdfABCDFtTyY".toUTF8.toList) then .invalid
+  -- no x X i I n N, but one of a b c d f A B C D F t T y Y
+  else if !b.any (isOneOf [120, 88, 105, 73, 110, 78]) && b.any (isOneOf [97, 98, 99, 100, 102, 65, 66, 67, 68, 70, 116, 84, 121, 89]) then .invalid
   else .unknown
 
 /-- `core.Value.Float`: empty text counts as zero -/
@@ -199,7 +205,8 @@ def formatFloatDec (x : Dyadic) : Option Bytes :=
     let sign : Bytes := if n < 0 then [45] else []
     if k ≤ 0 then
       let N := n.natAbs * 2 ^ (-k).toNat
-      if (natDigits (stripTrailingZeros N)).length ≤ 15 then some (sign ++ natDigits N) else none
+      -- the odd part must fit in 53 bits (10^23 has one significant digit and is not a float64)
+      if n.natAbs < 2 ^ 53 && (natDigits (stripTrailingZeros N)).length ≤ 15 then some (sign ++ natDigits N) else none
     else
       let kk := k.toNat
       let ds := natDigits (n.natAbs * pow5 kk)      -- value = this / 10^k, last digit is 5
